@@ -989,6 +989,12 @@ QAttr(s, q, k) ==
          IF ~HasBasket(s, k) THEN "?" ELSE
          LET b == BasketByDenom(s, k) IN
          b.name \o "|" \o b.ct \o "|" \o BoolStr(b.dar) \o "|" \o b.curator \o "|" \o CritStr(b.crit)
+    [] q \in {"SellOrders", "SellOrdersBySeller", "SellOrdersByBatch"} ->
+         IF ~\E o \in s.orders : ToString(o.id) = k THEN "?" ELSE
+         LET o == CHOOSE y \in s.orders : ToString(y.id) = k IN
+         o.seller \o "|" \o DenomOfKey(s, o.bk) \o "|"
+           \o (IF HasMarketId(s, o.mid) THEN MarketById(s, o.mid).denom ELSE "?") \o "|" \o ToString(o.ask)
+           \o "|" \o BoolStr(o.dar) \o "|" \o (IF o.exp.set THEN ToString(o.exp.t) ELSE "none")
     [] OTHER -> "?"
 C17_AttrsOK(s, x) ==
   ("attrs" \in DOMAIN x /\ ~x.err) => \A i \in DOMAIN x.attrs : x.attrs[i].v = QAttr(s, x.q, x.attrs[i].k)
